@@ -8,6 +8,7 @@ package main
 import (
 	"fmt"
 	"os"
+	"path/filepath"
 	"runtime"
 	"strconv"
 	"time"
@@ -85,6 +86,16 @@ func main() {
 		switch os.Args[2] {
 		case "C13":
 			fmt.Println(string(synccheck.Spec("quick", seed(), 1).Generate(seed(), i).JSON()))
+		case "C02", "C08":
+			// verif gen C02 <i> <dir>: write the files of generated program i into dir
+			sp := c02.Spec("quick", seed(), 1)
+			if os.Args[2] == "C08" {
+				sp = c08.Spec("quick", seed(), 1)
+			}
+			for name, content := range sp.Generate(seed(), i).Files {
+				os.MkdirAll(os.Args[4], 0o755)
+				os.WriteFile(filepath.Join(os.Args[4], name), []byte(content), 0o644)
+			}
 		}
 	case "replay":
 		if len(os.Args) < 3 {
